@@ -649,7 +649,7 @@ def fn_cases(ctx):
                 for og in itertools.product(*[range((d + c - 1) // c) for d, c in zip(dims, cl)]):
                     cases.append("C %d %d %s %s %s" % (nt, len(dims), " ".join(map(str, dims)), " ".join(map(str, cl)),
                                                      " ".join(map(str, og))))
-    for _ in range(1500 if quick else 20000):
+    for _ in range(1500 if quick else 6000):
         nd = r.choice([1, 2, 2, 3, 3, 4, 5])
         dims = [r.randrange(1, 14) for _ in range(nd)]
         cl = [r.choice([1, d, r.randrange(1, d + 1), d + r.randrange(0, 3)]) for d in dims]
@@ -691,7 +691,7 @@ def fn_oracle(line):
 def mc_cases(ctx):
     r = ctx.rng
     cases = []
-    for _ in range(400 if ctx.tier == "quick" else 6000):
+    for _ in range(400 if ctx.tier == "quick" else 3000):
         np_ = r.randrange(1, 9)
         maxc = r.choice([1, 1, 2, 3, np_, np_ + 1])
         ps = r.randrange(1, 4)
@@ -746,7 +746,7 @@ def run_function_level(ctx):
     rcm, M = vc.run_lines(mod, p, timeout=1500, args=("fn",))
     st = {"cases": len(cases), "P": 0, "C": 0, "last_chunk_partial": 0, "piece_cut_by_row": 0, "harness_rc": rc}
     if rcm != 0 or len(M) != len(cases):
-        raise vc.BuildError("model driver (fn) failed rc=%d lines=%d/%d" % (rcm, len(M), len(cases)))
+        raise vc.BuildError("model driver (fn) failed rc=%d lines=%d/%d: %s" % (rcm, len(M), len(cases), " | ".join(M[-3:])[:500]))
     for i, c in enumerate(cases):
         r = R[i] if i < len(R) else "crash"
         st[c[0]] += 1
@@ -780,7 +780,7 @@ def run_function_level(ctx):
     rcm, M = vc.run_lines(mod, p, timeout=1500, args=("mc",))
     st = {"cases": len(mcs), "ops": 0, "gets": 0, "dirty_puts": 0, "syncs": 0, "cache1": 0, "refused_gets": 0, "harness_rc": rc}
     if rcm != 0 or len(M) != len(mcs):
-        raise vc.BuildError("model driver (mc) failed rc=%d lines=%d/%d" % (rcm, len(M), len(mcs)))
+        raise vc.BuildError("model driver (mc) failed rc=%d lines=%d/%d: %s" % (rcm, len(M), len(mcs), " | ".join(M[-3:])[:500]))
     for i, c in enumerate(mcs):
         r = R[i] if i < len(R) else "crash"
         line = "%d %d %d %d %d %s" % (c[0], c[1], c[2], c[3], len(c[4]), " ".join("%d %d %d" % o for o in c[4]))
@@ -832,8 +832,8 @@ def run(ctx):
     stats = {}
     quick = ctx.tier == "quick"
     recs = load_corpus()
-    recs += sd_records(g, ctx.tier, 80 if quick else 700)
-    recs += gr_records(g, ctx.tier, 40 if quick else 300)
+    recs += sd_records(g, ctx.tier, 80 if quick else 300)
+    recs += gr_records(g, ctx.tier, 40 if quick else 120)
     recs += exhaustive_records(g, (3, 2, 2) if quick else (4, 4, 3))
     check_records(ctx, recs, "main", stats)
     ctx.corr("layouts~array-spec", **{k: v for k, v in stats.items()})
